@@ -216,6 +216,7 @@ class Agg:
         self.fps_all = set()
         self.samples = []
         self.failures = []
+        self.aborted = False
         self.lock = threading.Lock()
 
     def add(self, flavour, rec, concurrent, single_task=False):
@@ -285,6 +286,11 @@ def run_batch(prop, spec, tier, seed, agg):
                 flavour, first, count = q.get_nowait()
             except queue.Empty:
                 return
+            # enough evidence of a violation: do not burn the budget on more failing runs
+            # (every hanging run costs its watchdog time)
+            if len(agg.failures) >= 300 or sum(1 for f in agg.failures if f.get("cls") == "hang_wallclock") >= 8:
+                agg.aborted = True
+                continue
             while count > 0:
                 args = ["--runs", str(first), "1", str(count), "--seed", str(seed), "--tier", tier,
                         "--full-first", "3" if flavour == "plain" else "0"]
@@ -770,7 +776,7 @@ def main():
             threads_histogram={str(k): v for k, v in sorted(agg.threads.items())},
             components_real=spec["real"], components_stub=spec["stub"],
             known_findings_matched={k: v["count"] for k, v in known_hits.items()},
-            failing_runs=len(agg.failures),
+            failing_runs=len(agg.failures), batch_cut_short_after_many_failures=agg.aborted,
             build_s=round(t_build, 1), run_s=round(t_run, 1),
         )
         ev = dict(property_id=prop, tier=tier, seed=seed, level="exploration", coverage=cov,
